@@ -1147,6 +1147,13 @@ class Engine:
                 if r is not None:
                     return r
             name = segs[-1]
+            if len(segs) == 1 and s._dest_ty:
+                # trimmed path `Number(..)`: a variant of the destination's enum wins over a
+                # (possibly foreign) struct of the same name
+                dn = strip_generics(re.sub(r"<.*>$", "", s._dest_ty.strip())).split("::")
+                r = s.mk_variant(dn[-1], name, vals, dn[-2] if len(dn) >= 2 else None) if dn[-1] and dn[-1][0].isupper() else None
+                if r is not None and len(models_deref_fields(r)) == len(vals):
+                    return r
             q, d = s.tdef(name, "struct", hint=segs[-2] if len(segs) >= 2 else None)
             if d is not None:
                 return Agg(q, None, 0, vals)
@@ -1697,6 +1704,10 @@ def _top_assign(st):
             return i
         i += 1
     return None
+
+
+def models_deref_fields(a):
+    return a.fields if isinstance(a, Agg) else []
 
 
 def _match_open(t, o, c):
